@@ -124,12 +124,14 @@ def make_replay(ob, rep, c, qualname, schema):
         res = c["replay_hook"](ob.model, c)
         res["model_excerpt"] = str(ob.model)[:1500]
         return replay.jsonable(res)
-    if c.get("make_env") is not None:
+    if c.get("make_env") is not None and c.get("replay_prepare") is None:
         return dict(verdict="not-attempted", detail="the pre-state of this contract is built by the contract itself (objects of concrete shape / ghost collaborators): no generic replay; solver model: %s" % str(ob.model)[:600])
     if ob.model is None or not hasattr(ob, "replay_ctx") or ob.replay_ctx is None:
         return dict(verdict="no-model", detail="no model available from the back end")
     fi, env, mro_fn = ob.replay_ctx
     desc = replay.extract_state(ob.model, None, fi, env.get("self"), env, schema, mro_fn)
+    if c.get("class_module"):
+        desc["class_module"] = c["class_module"]
     clause = ob.name.split("/")[0] if ob.kind == "post" else None
     res = replay.run_replay(desc, c, clause)
     if ob.kind in ("defined", "frame", "loop-step"):
@@ -191,7 +193,7 @@ def fuzz_search(ob, c, qualname, schema, n=150):
     import random
     from pyvc import replay, verify
 
-    if not hasattr(ob, "replay_ctx") or ob.replay_ctx is None or not hasattr(ob, "entry") or c.get("replay_hook") is not None or c.get("make_env") is not None:
+    if not hasattr(ob, "replay_ctx") or ob.replay_ctx is None or not hasattr(ob, "entry") or c.get("replay_hook") is not None or (c.get("make_env") is not None and c.get("replay_prepare") is None):
         return None
     fi, env, mro_fn = ob.replay_ctx
     rng = random.Random(int(os.environ.get("VERIF_SEED", "0") or 0) + 17)
@@ -210,6 +212,9 @@ def fuzz_search(ob, c, qualname, schema, n=150):
                 pass
     clause = ob.name.split("/")[0] if ob.kind == "post" else None
     tried = ok = 0
+    if c.get("class_module"):
+        for b in bases:
+            b["class_module"] = c["class_module"]
     for b in bases:
         for i in range(max(1, n // max(1, len(bases)))):
             d = b if i == 0 else _perturb(b, rng)
